@@ -198,7 +198,9 @@ struct Stats {
 	std::string current;                  // description of the running case (for violation())
 	bool registered = false;
 	size_t max_distinct = 4000000;
-	void flush() {
+	// full = include the list of distinct-case hashes (written at exit / before a trap); the periodic flush every 4096
+	// cases writes only the count, so that a killed process still leaves its counters behind without O(n^2) I/O
+	void flush(bool full = true) {
 		const char *path = getenv("VERIF_STATS");
 		if (!path || !*path) return;
 		std::string s = "{\"pid\":" + std::to_string((long)getpid()) + ",\"prop\":\"" + prop + "\",\"evals\":" + std::to_string(evals)
@@ -208,9 +210,9 @@ struct Stats {
 		s += "},\"samples\":[";
 		first = true;
 		for (auto &sm : samples) { if (!first) s += ","; first = false; s += sm.second; }
-		s += "],\"distinct\":[";
+		s += "],\"distinct_count\":" + std::to_string(distinct.size()) + ",\"distinct\":[";
 		first = true; char hb[24];
-		for (uint64_t h : distinct) { if (!first) s += ","; first = false; snprintf(hb, sizeof hb, "\"%llx\"", (unsigned long long)h); s += hb; }
+		if (full) for (uint64_t h : distinct) { if (!first) s += ","; first = false; snprintf(hb, sizeof hb, "\"%llx\"", (unsigned long long)h); s += hb; }
 		s += "]}\n";
 		// one file per process, rewritten atomically (concurrent appends of long lines would interleave)
 		std::string fn = std::string(path) + "." + std::to_string((long)getpid()), tmp = fn + ".tmp";
@@ -225,7 +227,7 @@ static inline void begin_case(const char *prop) {
 	if (!g_stats.registered) { g_stats.registered = true; g_stats.prop = prop; atexit(stats_atexit); }
 	++g_stats.evals;
 	g_stats.current.clear();
-	if ((g_stats.evals & 4095) == 0) g_stats.flush();
+	if ((g_stats.evals & 4095) == 0) g_stats.flush(false);
 }
 static inline void count(const char *k, uint64_t n = 1) { g_stats.cls[k] += n; }
 static inline void count(const std::string &k, uint64_t n = 1) { g_stats.cls[k] += n; }
